@@ -98,10 +98,12 @@ def build_grammar(g, cls=None):
             for v in seq:
                 objs[name].first_match_alternation = bool(v)
         return cls, objs
+    if g.get("via_text"):
+        cls.load_grammar(g["via_text"])              # the library's own reader and compiler (nothing is looked up before it runs)
     for r in g["rules"]:
         objs[r["name"]] = cls(r["name"])
     if g.get("via_text"):
-        cls.load_grammar(g["via_text"])              # the library's own reader and compiler
+        pass
     else:
         for r in g["rules"]:
             if r.get("def") is not None and not r.get("alias_of"):
@@ -150,6 +152,9 @@ def check_graph(g, objs):
     """the object graph (incl. flags after the toggles) is the one the AST denotes; returns complaints"""
     bad = []
     for r in g["rules"]:
+        # a rule is NAMED as it was first written (the spelling that ends up in every node it produces)
+        if getattr(objs[r["name"]], "name", None) != r["name"]:
+            bad.append(f"rule {r['name']}: the rule object calls itself {getattr(objs[r['name']], 'name', None)!r}")
         d = r.get("def")
         if d is None:
             continue
